@@ -55,7 +55,8 @@ def run(ctx):
 
     # ---- code -> spec: longer random soups; every event carries both modes
     alpha = ["", "-", "--", "---", "--=", "-=", "--aa", "--aa=x", "--aa=", "--aa=7", "--zz", "-a", "-ax", "-ab", "-ba", "-z", "-5",
-             "null", "x", "7", "srv", "s", "--bb", "-b", "--a", "--bb=1", "-a7", "-b=", "true", "--aa=null"]
+             "null", "x", "7", "srv", "s", "--bb", "-b", "--a", "--bb=1", "-a7", "-b=", "true", "--aa=null", "--aa=x=y", "--aa==", "-a=", "--bb=",
+             "-", "-ab7", "--aa=-5"]
     n = 800 if quick else 20000
     for k in range(n):
         fi = ctx.rng.randrange(len(formats))
